@@ -10,6 +10,7 @@ import WireV.Show
 import WireV.Cmd
 import WireV.Generated.Tables
 import WireV.Rename
+import WireV.Bind
 /-! # WireV.Driver — line protocol of the unit tier (one request per line, one reply per line) -/
 namespace WireV
 
@@ -339,6 +340,47 @@ def runFields (ws : List String) : String :=
     | .error (.hidden _) => "err hidden"
   | _ => "bad-request"
 
+
+/-! `bind mode usePtr #named (#m (name sig ptr)… #e (id ptr)…)… #iface (#m (name sig)…)… #args (depth kind id)…` -/
+def pBTy : P BTy := do
+  let d ← pNat
+  let k ← pNat
+  let id ← pNat
+  let base : BTy := match k with | 0 => .named id | 1 => .iface id | 2 => .basic | _ => .untypedNil
+  return (List.range d).foldl (fun t _ => BTy.ptr t) base
+
+def btyStr : BTy → String
+  | .named c => s!"n{c}"
+  | .iface i => s!"i{i}"
+  | .ptr t => "p" ++ btyStr t
+  | .basic => "b"
+  | .untypedNil => "nil"
+
+def runBind (ns : List Nat) : String :=
+  let p : P String := do
+    let mode ← pNat
+    let usePtr ← pBool
+    let named ← pMany (do
+      let ms ← pMany (do return ({ name := ← pNat, sig := ← pNat, ptrRecv := ← pBool } : BMethod))
+      let es ← pMany (do return ((← pNat), (← pBool)))
+      return (ms, es))
+    let ifs ← pMany (pMany (do return ((← pNat), (← pNat))))
+    let args ← pMany pBTy
+    let env : BEnv := { meths := fun c => (named.getD c ([], [])).1, embeds := fun c => (named.getD c ([], [])).2,
+                        imeths := fun i => ifs.getD i [] }
+    let r := if mode == 0 then processBind env usePtr args else processIValue env args
+    return match r with
+      | .ok (i, p) => s!"ok {btyStr i} {btyStr p}"
+      | .error .argCount => "err argcount"
+      | .error .notIfacePtr => "err notifaceptr"
+      | .error .notPtr => "err notptr"
+      | .error .self => "err self"
+      | .error .notImpl => "err notimpl"
+      | .error .untypedNil => "err nil"
+  match p.run ns with
+  | some (s, []) => s
+  | _ => "bad-request"
+
 /-- `rename nfs =name… nocc (=name obj|- flags)…`; flags: `r` renamable, `s` silent + renamable, `n` neither -/
 def runRename (ws : List String) : String :=
   match ws with
@@ -442,6 +484,9 @@ def handleLine (line : String) : String :=
   | "path" :: rest => runPath rest
   | "fields" :: rest => runFields rest
   | "rename" :: rest => runRename rest
+  | "bind" :: rest => match parseNats rest with
+    | some ns => runBind ns
+    | none => "bad-request"
   | "namefile" :: rest => runNameFile rest
   | "disamb" :: rest => runNames "disamb" rest
   | "export" :: rest => runNames "export" rest
